@@ -223,4 +223,23 @@ def cpLoad (stream : Bytes) : Bytes :=
   let size := leNat (stream.take 8)
   resize size ((stream.drop 8).take size)
 
+/-! ### `DistFileIO::write_combined / read_combined` for one process (the file behind `CheckpointControl::save/load(filename)`) -/
+
+/-- `"FEAT3CDF"` -/
+def dfMagic : Nat := 0x4644433354414546
+
+/-- 40-byte header (magic, file size, number of processes, shared size, buffer size), shared data, buffer -/
+def dfWrite (shared buffer : Bytes) : Bytes :=
+  wordsBytes 8 [dfMagic, 40 + buffer.length + shared.length, 1, shared.length, buffer.length] ++ shared ++ buffer
+
+/-- `read_combined`: `none` = abort (bad magic / process count); an output vector is only touched when its
+    stored size is positive (`shared0`/`buffer0` are the vectors passed in); a short file leaves zeros -/
+def dfRead (file shared0 buffer0 : Bytes) : Option (Bytes × Bytes) :=
+  match readWords (resize 40 file) 8 0 5 with
+  | some [mg, _, np, ss, bs] =>
+    if mg ≠ dfMagic ∨ np ≠ 1 then none else
+    some (if ss > 0 then resize ss ((file.drop 40).take ss) else shared0,
+          if bs > 0 then resize bs ((file.drop (40 + ss)).take bs) else buffer0)
+  | _ => none
+
 end FeatModel.Ser
